@@ -1479,7 +1479,7 @@ def run_history(EF, shape, hops, only=None):
                 continue
             kind = 'compute' if h[0] == 'compute' else 'variants' if h[0] == 'variants' else 'eqAR_by' + ('Search' if h[1] == 'search' else 'GR')
             key = 'history:%s:%s' % (kind, SHAPES[ref.desc])
-            if only is not None and not only.startswith(key):
+            if only is not None and only.split(':')[1] != kind:
                 hist_call(EF, se, h)             # still part of the history
                 continue
             got = hist_call(EF, se, h)
@@ -1620,13 +1620,17 @@ def gen_history(r, EF, nmax):
         if shape == 3 and r.random() < 0.7:
             hops.append(('quad', 'lebedev', 'low'))
         hops = [hops[i] for i in r.permutation(len(hops))]
-    neq = 0
+    neq = 0; last_search = [None]
     while len(hops) < n:
         h = observation() if r.random() < 0.4 else setter()
         if h[0] == 'eqAR':
             neq += 1
             if neq > (4 if peq else 2):
                 continue
+            if h[1] == 'search':
+                if last_search[0] is not None and r.random() < 0.6:
+                    h = last_search[0]                   # the same question again, later in the object's life
+                last_search[0] = h
         hops.append(h)
     if not is_obs(hops[-1]):
         hops.append(('compute', radii()))
@@ -1664,6 +1668,154 @@ def part_history(ctx, res, EF, r, n=None):
     for k in range(n or ctx.n(260, 3000)):
         attempt(res, 'history', k, _case_history)
     return lines, checks
+
+
+# ------------------------------------------------------------------ part G: the same tensor in every accepted input form
+def part_forms(ctx, res, EF, r, n=None):
+    """every tensor-valued setter, given the SAME tensor in each form it accepts, must store the same tensor (and the
+    tensor that was supplied: compared with an expansion written out in this file), produce the same parameters and the
+    same energies.  Matrix and precipitate side, precipitate stiffness different from the matrix, with and without
+    rotations, either side first; eigenstrain and applied stress as scalar / 3-vector / 3x3 matrix."""
+    def stiffness_forms(c6, cubic, iso):
+        c6 = np.array(c6, dtype=float); c4 = own_2to4(c6)
+        f = [('6x6', lambda se, m: (se.setElasticTensor if m else se.setElasticTensorPrecipitate)(c6.copy())),
+             ('3x3x3x3', lambda se, m: (se.setElasticTensor if m else se.setElasticTensorPrecipitate)(c4.copy())),
+             ('6x6-nested-list', lambda se, m: (se.setElasticTensor if m else se.setElasticTensorPrecipitate)(c6.tolist())),
+             ('3x3x3x3-nested-list', lambda se, m: (se.setElasticTensor if m else se.setElasticTensorPrecipitate)(c4.tolist())),
+             ('property-6x6', lambda se, m: setattr(se, 'unrotated_cMatrix_4th' if m else 'unrotated_cPrec_4th', c6.copy())),
+             ('property-3x3x3x3', lambda se, m: setattr(se, 'unrotated_cMatrix_4th' if m else 'unrotated_cPrec_4th', c4.copy()))]
+        if cubic is not None:
+            f.append(('elastic-constants', lambda se, m: (se.setElasticConstants if m else se.setElasticConsantsPrecipitate)(*cubic)))
+        if iso is not None:
+            v = consistent(*iso)
+            for i in r.permutation(len(PAIRS))[:3]:
+                a, b = PAIRS[i]
+                f.append(('moduli-%s-%s' % (a, b), lambda se, m, a=a, b=b: (se.setModuli if m else se.setModuliPrecipitate)(**{a: v[a], b: v[b]})))
+        return f, c4
+
+    def _case_forms(k):
+        side = ['precipitate', 'matrix'][k % 2]
+        kind = ['cubic', 'isotropic', 'general'][(k // 2) % 3]
+        if kind == 'cubic':
+            cc = rand_cubic(r); c6 = EF.elasticConstantToC(*cc); cubic, iso = tuple(float(x) for x in cc), None
+        elif kind == 'isotropic':
+            E = 10 ** r.uniform(10, 11.6); nu = r.uniform(0.05, 0.45); v = consistent(E, nu)
+            cubic = (v['lam'] + 2 * v['G'], v['lam'], v['G']); c6 = EF.elasticConstantToC(*cubic); iso = (E, nu)
+        else:
+            c4r = EF.rotateRank4Tensor(rand_rotation(r), own_2to4(EF.elasticConstantToC(*rand_cubic(r))))
+            c6 = own_4to2(c4r); c6 = (c6 + c6.T) / 2; cubic = iso = None
+        forms, c4 = stiffness_forms(c6, cubic, iso)
+        other = EF.elasticConstantToC(*rand_cubic(r))            # the other side: a different cubic stiffness, always as 6x6
+        rot = rand_rotation(r) if k % 3 == 0 else None
+        rotP = rand_rotation(r) if k % 5 < 2 else None
+        eig = rand_eig(r, ['dil', 'diag', 'full'][k % 3])
+        stress = r.uniform(-1, 1, (3, 3)) * 2e8; stress = (stress + stress.T) / 2
+        shape = ['ellipsoid', 'ellipsoid', 'ellipsoid', 'sphere', 'cube'][k % 5] if side == 'matrix' else 'ellipsoid'
+        order = ['low', 'low', 'mid', 'high'][(k // 3) % 4]
+        first = ['matrix', 'precipitate'][(k // 7) % 2]
+        a = 10 ** r.uniform(-9.5, -7.5)
+        rad = a * np.array([1.0, 1.0, r.uniform(0.2, 5)]) if k % 4 else a * r.uniform(0.4, 2.5, 3)
+        case = dict(side=side, tensor_kind=kind, tensor_6x6=np.asarray(c6).tolist(), other_side_6x6=other.tolist(), rotation=None if rot is None else rot.tolist(),
+                    rotationPrec=None if rotP is None else rotP.tolist(), eigenstrain=eig.tolist(), appliedStress=stress.tolist(), shape=shape, quadrature=order,
+                    first=first, r=rad.tolist())
+        _case_forms.info = case
+        res.case(('forms', k, side, kind, shape, first)); res.count('forms-' + side); res.count('forms-tensor-' + kind)
+
+        def build(setter):
+            se = EF.StrainEnergy(shape)
+            if shape == 'ellipsoid' and order != 'high':
+                se.description.setLebedevIntegration(order)
+            if rot is not None:
+                se.setRotationMatrix(rot)
+            if rotP is not None:
+                se.setRotationPrecipitate(rotP)
+            se.setAppliedStress(stress)
+            for which in ([first] + [w for w in ('matrix', 'precipitate') if w != first]):
+                if which == side:
+                    setter(se, side == 'matrix')
+                elif which == 'matrix':
+                    se.setElasticTensor(other)
+                else:
+                    se.setElasticTensorPrecipitate(other)
+            se.setEigenstrain(eig)
+            stored = np.array(se.unrotated_cMatrix_4th if side == 'matrix' else se.unrotated_cPrec_4th, dtype=float)
+            fs = final_state(se)
+            with np.errstate(all='ignore'):
+                en = [float(se.compute(rad))]
+                if shape == 'ellipsoid':
+                    d = se.description
+                    en += [float(f(rad)) for f in (d.strainEnergyEllipsoid, d.strainEnergyEllipsoid2ndRank, d.strainEnergyBohm, d.strainEnergyBohm2ndRank,
+                                                   d.strainEnergyEllipsoidWithStress)]
+            return stored, fs, en
+        base = None
+        for name, setter in forms:
+            res.count('form:' + name)
+            stored, fs, en = build(setter)
+            tol = 1e-9 if name.startswith('moduli') else 1e-14
+            sidekey = 'input-form:%s:%s' % (side, name)
+            if stored.shape != (3, 3, 3, 3) or not arr_close(stored, c4, tol):
+                res.violate(sidekey + ':stored-tensor', 'the %s stiffness supplied as %s is not the tensor the object holds afterwards (unrotated_c%s_4th)' % (side, name, 'Matrix' if side == 'matrix' else 'Prec'),
+                            dict(case, form=name), np.asarray(stored).ravel()[:9].tolist(), c4.ravel()[:9].tolist())
+            if base is None:
+                base = (name, fs, en); continue
+            diff = [f for f in FIELDS if not arr_close(fs[f], base[1][f], 1e-7 if (f == 'strain' and tol > 1e-12) else max(tol, 1e-12))]
+            if fs['desc'] != base[1]['desc']:
+                diff.append('description')
+            if diff:
+                res.violate(sidekey + '-vs-6x6:parameters', 'the same %s stiffness supplied as %s and as 6x6 gives different %s' % (side, name, ', '.join(diff)), dict(case, form=name),
+                            {f: (np.asarray(fs[f]).ravel()[:6].tolist() if f != 'description' else fs['desc']) for f in diff[:2]},
+                            {f: (np.asarray(base[1][f]).ravel()[:6].tolist() if f != 'description' else base[1]['desc']) for f in diff[:2]})
+            esc = max(abs(x) for x in base[2] if math.isfinite(x)) if any(math.isfinite(x) for x in base[2]) else 0.0
+            if not all(close(x, y, 1e-8 if tol > 1e-12 else 1e-10, esc) for x, y in zip(en, base[2])):
+                res.violate(sidekey + '-vs-6x6:energy', 'the same %s stiffness supplied as %s and as 6x6 gives different energies (compute%s)' % (side, name, ', Ellipsoid, Ellipsoid2ndRank, Bohm, Bohm2ndRank, EllipsoidWithStress' if shape == 'ellipsoid' else ''),
+                            dict(case, form=name), en, base[2])
+    for k in range(n or ctx.n(36, 600)):
+        attempt(res, 'input-forms', k, _case_forms)
+
+    def _case_vec_forms(k):
+        # eigenstrain / applied stress: scalar = 3-vector = matrix for a dilatation, 3-vector = diagonal matrix
+        M, Pm, desc = stiffness_pair(EF, r, 'cubic')
+        dil = k % 2 == 0
+        scale = 0.03 if k % 4 < 2 else 2e8
+        what = 'eigenstrain' if k % 4 < 2 else 'appliedStress'
+        v = np.full(3, r.uniform(-1, 1) * scale) if dil else r.uniform(-1, 1, 3) * scale
+        fixed = rand_eig(r, 'full')
+        forms = ([('scalar', float(v[0]))] if dil else []) + [('vector', v.copy()), ('vector-list', v.tolist()), ('matrix', np.diag(v)), ('matrix-nested-list', np.diag(v).tolist())]
+        rot = rand_rotation(r) if k % 3 == 0 else None
+        a = 10 ** r.uniform(-9.5, -7.5); rad = a * np.array([1.0, 1.0, r.uniform(0.2, 5)])
+        case = dict(desc, setter='setEigenstrain' if what == 'eigenstrain' else 'setAppliedStress', value=v.tolist(), rotation=None if rot is None else rot.tolist(), r=rad.tolist(),
+                    other=fixed.tolist())
+        _case_vec_forms.info = case
+        res.case(('vec-forms', k, what, dil)); res.count('forms-' + what)
+        base = None
+        for name, val in forms:
+            se = EF.StrainEnergy('ellipsoid'); se.description.setLebedevIntegration('low')
+            if rot is not None:
+                se.setRotationMatrix(rot)
+            if k % 8 < 4:
+                se.setElasticTensor(M); se.setElasticTensorPrecipitate(Pm)
+            if what == 'eigenstrain':
+                se.setEigenstrain(val); se.setAppliedStress(fixed * 1e10)
+            else:
+                se.setAppliedStress(val); se.setEigenstrain(fixed)
+            if k % 8 >= 4:
+                se.setElasticTensor(M); se.setElasticTensorPrecipitate(Pm)
+            fs = final_state(se)
+            d = se.description
+            en = [float(f(rad)) for f in (se.compute, d.strainEnergyEllipsoid, d.strainEnergyBohm2ndRank, d.strainEnergyEllipsoidWithStress)]
+            key = 'input-form:%s:%s' % (what, name)
+            if what == 'eigenstrain' and not np.array_equal(fs['eig'], np.diag(v)):
+                res.violate(key + ':stored-tensor', 'the eigenstrain supplied as %s is not the tensor the object holds afterwards' % name, dict(case, form=name), fs['eig'].tolist(), np.diag(v).tolist())
+            if base is None:
+                base = (name, fs, en); continue
+            diff = [f for f in FIELDS if not arr_close(fs[f], base[1][f], 1e-12)]
+            if diff:
+                res.violate(key + '-vs-%s:parameters' % base[0], 'the same %s supplied as %s and as %s gives different %s' % (what, name, base[0], ', '.join(diff)), dict(case, form=name),
+                            {f: np.asarray(fs[f]).ravel().tolist() for f in diff[:2]}, {f: np.asarray(base[1][f]).ravel().tolist() for f in diff[:2]})
+            if not all(close(x, y, 1e-10, max(abs(z) for z in base[2])) for x, y in zip(en, base[2])):
+                res.violate(key + '-vs-%s:energy' % base[0], 'the same %s supplied as %s and as %s gives different energies' % (what, name, base[0]), dict(case, form=name), en, base[2])
+    for k in range(ctx.n(24, 400)):
+        attempt(res, 'input-forms-vector', k, _case_vec_forms)
 
 
 # ------------------------------------------------------------------ entry points
